@@ -2,20 +2,20 @@ CONSTANTS
   Types <- T1
   TypeSeq <- T1s
   Owners <- O2
-  SubOpts <- OptWeak
-  AutoOpts <- AutoTwo
-  RVs = {"none", "remove"}
-  UnsubModes = {"handler", "pair"}
+  SubOpts <- OptPrio
+  AutoOpts <- AutoNone
+  RVs <- RVplain
+  UnsubModes = {"handler"}
   Forms = {"inst"}
   NoErrs = {FALSE}
   RaiseTypes <- TA
   SubTypes <- TA
   MaxSubs = 3
   MaxRaises = 1
-  MaxUnsubs = 1
+  MaxUnsubs = 0
   MaxDepth = 2
   MaxOps = 1
-  WithDrop = TRUE
+  WithDrop = FALSE
   Probes = 1
   D = 3
 INIT Init
@@ -32,4 +32,5 @@ PROPERTY HaltStops
 PROPERTY NoErrorsContained
 PROPERTY RejectedUnchanged
 PROPERTY NeverAgain
+ACTION_CONSTRAINT ExportT
 CHECK_DEADLOCK FALSE
